@@ -203,10 +203,33 @@ func (c *Ctx) NViolations() int {
 
 // HarnessError aborts the worker with a harness error (exit 2 at the coordinator, no VIOLATION line).
 func (c *Ctx) HarnessError(format string, a ...interface{}) {
+	if len(a) == 1 {
+		if bv, ok := a[0].(*BaseViolation); ok {
+			// the code under test went wrong while the harness was building a start state with it: that is a finding about the
+			// code (a sequential history from an empty database that ends in an inconsistent database), not a harness failure
+			c.Violation(Violation{Key: "base " + bv.Base + "/" + bv.Cfg, What: bv.Error(), Size: 1,
+				Replay: map[string]interface{}{"kind": "base", "base": bv.Base, "cfg": bv.Cfg, "seed": bv.Seed, "observed": bv.Error()}})
+			panic(stopCheck{})
+		}
+	}
 	panic(harnessErr(fmt.Sprintf(format, a...)))
 }
 
 type harnessErr string
+
+type stopCheck struct{}
+
+// BaseViolation is returned by GetBase when the operations that build an engineered start state (Puts and Deletes on an
+// empty database, no concurrency, no faults) left the database inconsistent with the model of those operations.
+type BaseViolation struct {
+	Base, Cfg string
+	Seed      uint32
+	Msg       string
+}
+
+func (b *BaseViolation) Error() string {
+	return fmt.Sprintf("while building the engineered start state %s/%s (a history of Puts and Deletes on an empty database; no concurrency, no faults) the database became inconsistent with the model of those operations: %s", b.Base, b.Cfg, b.Msg)
+}
 
 // CheckFunc is the worker body of a check.
 type CheckFunc func(c *Ctx)
@@ -286,6 +309,8 @@ func WorkerMain(prop, tier string, shard, nshards int, out string, budget time.D
 			if r := recover(); r != nil {
 				if he, ok := r.(harnessErr); ok {
 					c.res.HarnessErr = string(he)
+				} else if _, ok := r.(stopCheck); ok {
+					// a violation was recorded; the check ends here
 				} else {
 					c.res.HarnessErr = fmt.Sprintf("worker panic: %v\n%s", r, debug.Stack())
 				}
